@@ -539,7 +539,7 @@ impl Prop for C06 {
         32
     }
     fn cases(&self) -> (u64, u64) {
-        (60_000, 600_000)
+        (250_000, 600_000)
     }
     fn rule(&self) -> &'static str {
         "a typed leaf (u32/i64 argument, u32 positional, string argument with parse or guard, u32 \
